@@ -580,6 +580,12 @@ def pool_methods(vc, s, extra=None):
     if '__len__' in members:
         s.pool_len = vc.fresh_int('pool_len', nonneg=True)
         m['__bool__'] = lambda self_: cur().branch(s.pool_len > 0)
+        m['__len__'] = lambda self_: s.pool_len
+    if '__contains__' in members:
+        # OutputPool.__contains__ by its own (inlined) definition in the tree: `len(self) > batch_index`, len = the LONGEST store; the stub
+        # answers with the same term, so `batch_index in pool` forks on pool_len > batch_index (a pool whose stores have different lengths
+        # "contains" a batch that some store lacks)
+        m['__contains__'] = lambda self_, i: cur().branch(s.pool_len > T(i))
     m.update(extra or {})
     return m
 
@@ -696,8 +702,10 @@ class Callback(_Base):
     def ensures(self, s, result):
         if not s.with_pool:
             return [('without a pool nothing happens', z3.BoolVal(s.calls == []))]
-        ok = len(s.calls) == 1 and not s.calls[0][1] and len(s.calls[0][0]) == 2 and s.calls[0][0][0] is s.batch and s.calls[0][0][1] is s.idx
-        return [('the batch is offered to pool.add_batch exactly once, under its own batch index', z3.BoolVal(ok))]
+        # 'exactly once' would be a clause read off the code (a correct fast path may skip add_batch for a batch every store already holds); the
+        # property-level clause - the pool ends up holding the batch - is CallbackView's.  Here only: nothing else is ever handed to the pool.
+        ok = len(s.calls) <= 1 and all(not kw and len(a) == 2 and a[0] is s.batch and a[1] is s.idx for a, kw in s.calls)
+        return [('pool.add_batch is called at most once, and only with the received batch under its own batch index', z3.BoolVal(ok))]
 
 
 # ---------------------------------------------------------------- OutputPool over the view
@@ -771,6 +779,61 @@ class AddBatch(_PoolContract):
 
     def ensures(self, s, result):
         return add_batch_post(s.v0, s.view, s.bhas, s.bval, s.idx) + [('view_wf is preserved: ' + n, f) for n, f in s.view.wf()]
+
+
+class CallbackView(_PoolContract):
+    """ComputationContext.callback against the POOL VIEW (property level): whatever route the code takes (always add_batch, or a fast path that
+    skips it), after the callback the pool holds the received batch exactly as OutputPool.add_batch would have left it - every stored node
+    that is in the batch holds it at batch_index, nothing is overwritten, nothing else changes.  add_batch is the callee under its contract
+    (AddBatch: havoc of the view + its post), `batch_index in pool` and len(pool) are the real definitions over the view
+    (len = length of the LONGEST live store)."""
+    target = 'elfi/model/elfi_model.py::ComputationContext.callback'
+    label = 'pool-view'
+
+    def __init__(self, kind='dict'):
+        self.kind = kind
+        self.label = 'pool-view,%s-stores' % kind
+
+    def setup(self, vc):
+        s = NS(idx=z3.Int('batch_index'), n_add=0)
+        vc.fin_bounds.append(s.idx)
+        vc.axioms = key_axioms(vc)
+        s.view = PoolView.fresh('pool', self.kind)
+        s.v0 = s.view.snap()
+        s.batch = BatchProxy.fresh('batch')
+        s.bhas, s.bval = s.batch.has, s.batch.val
+        s.L = vc.fresh_int('len_pool', nonneg=True)          # len(pool): the maximum of the live stores' lengths (0 without a live store)
+
+        def add_batch(self_, batch, batch_index, *a, **kw):
+            if a or kw or batch is not s.batch:
+                raise OutOfSubset('add_batch called with other arguments than the received batch')
+            cur().oblige('call-pre[add_batch receives the batch index of the callback]', T(batch_index) == s.idx)
+            if self.kind == 'array':
+                cur().oblige('call-pre[add_batch on array stores: no store lies short of the batch]',
+                             fa_key(lambda k: z3.Implies(z3.And(s.bhas(k), s.view.st(k)), s.idx <= s.view.ln(k))))
+            before = s.view.snap()
+            after = PoolView.fresh('after_add%d' % s.n_add, self.kind)
+            s.n_add += 1
+            cur().assume(*[f for _, f in add_batch_post(before, after, s.bhas, s.bval, s.idx)], *[f for _, f in after.wf()])
+            s.view = after
+        pool = make_object('OutputPool', methods=dict(add_batch=add_batch, __len__=lambda self_: s.L, __bool__=lambda self_: cur().branch(s.L > 0),
+                                                      __contains__=lambda self_, i: cur().branch(s.L > T(i)),
+                                                      __getattr__=sibling_fallback(vc, 'elfi/store.py', 'OutputPool')))
+        s.self = make_object('ComputationContext', attrs=dict(_pool=pool), methods=dict(__getattr__=sibling_fallback(vc, 'elfi/model/elfi_model.py', 'ComputationContext')))
+        return s, (s.self, s.batch, SInt(s.idx)), {}
+
+    def requires(self, s):
+        v = s.v0
+        out = list(v.wf()) + [s.idx >= 0,
+                              ('len(pool) is an upper bound of the live stores\' lengths', fa_key(lambda k: z3.Implies(v.live(k), v.ln(k) <= s.L))),
+                              ('len(pool) is attained by a live store, or 0', z3.Or(s.L == 0, ex_key(lambda k: z3.And(v.live(k), v.ln(k) == s.L))))]
+        if self.kind == 'array':
+            # the precondition add_batch itself has for array stores (batches are consumed in index order: C04)
+            out.append(('no store of a batch node lies short of the batch', fa_key(lambda k: z3.Implies(z3.And(s.bhas(k), v.st(k)), s.idx <= v.ln(k)))))
+        return out
+
+    def ensures(self, s, result):
+        return [(n.replace('adds exactly', 'the pool ends up as add_batch leaves it: it holds exactly'), f) for n, f in add_batch_post(s.v0, s.view, s.bhas, s.bval, s.idx)]
 
 
 class GetBatch(_PoolContract):
@@ -1201,7 +1264,7 @@ class LemmaSameValues(_Base):
         return [('every needed node has the output of the pool-free run', forall_range(0, s.n, lambda j: VAL_POOL(j) == VAL_FREE(j), 'j'))]
 
 
-CONTRACTS = [ContextInit(), SetContext(), Callback(), AddBatch('dict'), AddBatch('array'), GetBatch(), Len(), ContainsC(), RemoveBatch(), Clear(),
+CONTRACTS = [ContextInit(), SetContext(), Callback(), CallbackView('dict'), CallbackView('array'), AddBatch('dict'), AddBatch('array'), GetBatch(), Len(), ContainsC(), RemoveBatch(), Clear(),
              AddStore(), RemoveStore(), PoolLoad(True), PoolLoad(False),
              LemmaNoResim(), LemmaPoolContent(), LemmaGenerator('admissible'), LemmaGenerator('stated-form'), LemmaStatedFormAdmissible(), LemmaSameValues()]
 
